@@ -6,5 +6,6 @@ open SSVerif.Jsgf
 #print axioms C05_desugar_preserves
 #print axioms C05_compiled_language
 #print axioms C05_comparison_decides
-#print axioms C05_expand_refuses_partial
+#print axioms C05_expand_correct
+#print axioms C05_compile_correct
 #print axioms C05_weights_normalised
